@@ -2,7 +2,7 @@ SPECIFICATION Spec
 CONSTANTS
   Classes <- Classes4
   Outs <- OutsC03
-  Durs = {0, 1}
+  Durs = {1}
   Rets <- RetsOne
   Advs <- AdvsExact
   Decs <- DecsAll
@@ -11,11 +11,8 @@ CONSTANTS
   Modes = {"call", "exec"}
   RunGaps <- GapsNone
   NRuns = 1
-  Configs <- ConfigsC03
-  RecordHist = FALSE
+  Configs <- ConfigsC14T
+  RecordHist = TRUE
 INVARIANT NoViolation
-INVARIANT AttemptsBounded
-INVARIANT InvokeWithinDeadline
-INVARIANT SleepWithinRemaining
-INVARIANT DeliveriesRelated
+INVARIANT ExportBehaviours
 CHECK_DEADLOCK FALSE
